@@ -6,6 +6,7 @@ import (
 	"go/constant"
 	"go/token"
 	"go/types"
+	"sort"
 	"strings"
 
 	"golang.org/x/tools/go/ssa"
@@ -441,6 +442,179 @@ var ruleZipSignatures = &core.Rule{ID: "R19.2", Min: 10,
 				}
 			}
 			s.Check(okShape && extra == "", "offset detector shape of "+a.n.Name, c.Pos(f.Pos()), "len(raw) > k && HasPrefix(raw[k:], sig), nothing else", "the offset constructor does not test exactly a prefix of raw[k:] under a length guard (extra condition at "+extra+")")
+		}
+	}}
+
+// R19.6
+var ruleZipRoot = &core.Rule{ID: "R19.6", Min: 4,
+	Doc: "the zip node's own detector, tabulated over the byte values it distinguishes in the first four bytes (the constants it compares with, split into bytes when a little-endian word is compared, plus one other value per position): it accepts the local-file-header, end-of-central-directory (empty archive) and data-descriptor / spanned signatures PK\\x03\\x04, PK\\x05\\x06, PK\\x07\\x08, nothing that does not start with PK followed by one of 3/5/7 and one of 4/6/8, and nothing shorter than four bytes",
+	Run: func(c *core.Ctx, s *core.Sink) {
+		tm := tree.Get(c)
+		zs := tm.Find("application/zip")
+		if len(zs) != 1 || zs[0].DetFn == nil || zs[0].DetFn.Blocks == nil || len(zs[0].DetFn.Params) == 0 {
+			core.Bail("application/zip node or its detector not found")
+		}
+		f := zs[0].DetFn
+		raw := f.Params[0]
+		// what the detector reads of the header: byte loads at constant positions < 4, and 32-bit little-endian reads of its start
+		loads := map[int][]ssa.Value{}
+		var words []ssa.Value
+		var lens []ssa.Value
+		dom := [4]map[int64]bool{{}, {}, {}, {}}
+		isStart := func(v ssa.Value) bool {
+			if v == ssa.Value(raw) {
+				return true
+			}
+			sl, ok := v.(*ssa.Slice)
+			return ok && sl.X == ssa.Value(raw) && (sl.Low == nil || core.IsConstInt(sl.Low, 0))
+		}
+		for _, b := range f.Blocks {
+			for _, in := range b.Instrs {
+				switch x := in.(type) {
+				case *ssa.UnOp:
+					if x.Op != token.MUL {
+						continue
+					}
+					if ia, ok := x.X.(*ssa.IndexAddr); ok && ia.X == ssa.Value(raw) {
+						k, isK := core.ConstInt(ia.Index)
+						if !isK || k < 0 || k > 3 {
+							core.Bail("zip detector reads header byte %v, outside the signature", ia.Index)
+						}
+						loads[int(k)] = append(loads[int(k)], x)
+						for _, ref := range *x.Referrers() {
+							if bo, ok := ref.(*ssa.BinOp); ok {
+								for _, o := range []ssa.Value{bo.X, bo.Y} {
+									if cv, ok := core.ConstInt(o); ok {
+										dom[k][cv&0xff] = true
+									}
+								}
+							}
+						}
+					}
+				case *ssa.Call:
+					if core.IsBuiltin(&x.Call, "len") && x.Call.Args[0] == ssa.Value(raw) {
+						lens = append(lens, x)
+						continue
+					}
+					g := x.Call.StaticCallee()
+					if g != nil && g.Pkg != nil && g.Pkg.Pkg.Path() == "encoding/binary" && g.Name() == "Uint32" && strings.Contains(g.String(), "littleEndian") && isStart(x.Call.Args[len(x.Call.Args)-1]) {
+						words = append(words, x)
+						for _, ref := range *x.Referrers() {
+							if bo, ok := ref.(*ssa.BinOp); ok {
+								for _, o := range []ssa.Value{bo.X, bo.Y} {
+									if cv, ok := core.ConstInt(o); ok {
+										for i := 0; i < 4; i++ {
+											dom[i][(cv>>(8*uint(i)))&0xff] = true
+										}
+									}
+								}
+							}
+						}
+						continue
+					}
+					if g != nil || !x.Call.IsInvoke() {
+						if _, isB := x.Call.Value.(*ssa.Builtin); !isB {
+							core.Bail("zip detector calls %s: its signature test is not tabulated", x.Call.Value.Name())
+						}
+					}
+				}
+			}
+		}
+		if len(loads) == 0 && len(words) == 0 {
+			core.Bail("zip detector reads neither header bytes nor a header word")
+		}
+		var vals [4][]int64
+		for i := 0; i < 4; i++ {
+			other := int64(0xEE)
+			for dom[i][other] {
+				other--
+			}
+			dom[i][other] = true
+			for v := range dom[i] {
+				vals[i] = append(vals[i], v)
+			}
+			sort.Slice(vals[i], func(a, b int) bool { return vals[i][a] < vals[i][b] })
+		}
+		eval := func(h [4]int64, n int64) (bool, error) {
+			ev := newEval(c)
+			ev.Env = fde.Env{}
+			for _, l := range lens {
+				ev.Env[l] = constant.MakeInt64(n)
+			}
+			for i := 0; i < 4; i++ {
+				for _, ld := range loads[i] {
+					ev.Env[ld] = constant.MakeInt64(h[i])
+				}
+			}
+			for _, w := range words {
+				ev.Env[w] = constant.MakeInt64(h[0] | h[1]<<8 | h[2]<<16 | h[3]<<24)
+			}
+			exits, err := ev.Walk(f.Blocks[0], nil, nil, 0)
+			if err != nil {
+				return false, err
+			}
+			if len(exits) != 1 || exits[0].Ret == nil {
+				return false, fmt.Errorf("%d exits", len(exits))
+			}
+			v, ok := exits[0].ValAt(ev, exits[0].Ret.Results[0])
+			if !ok || v.Kind() != constant.Bool {
+				return false, fmt.Errorf("verdict not evaluable")
+			}
+			return constant.BoolVal(v), nil
+		}
+		want := map[[4]int64]string{{0x50, 0x4B, 3, 4}: "local file header PK\\x03\\x04", {0x50, 0x4B, 5, 6}: "end of central directory PK\\x05\\x06 (archive without entries)", {0x50, 0x4B, 7, 8}: "data descriptor / spanned marker PK\\x07\\x08"}
+		for sig, name := range want {
+			for i := 0; i < 4; i++ {
+				if !dom[i][sig[i]] {
+					vals[i] = append(vals[i], sig[i])
+					dom[i][sig[i]] = true
+				}
+			}
+			_ = name
+		}
+		seenWant := map[[4]int64]bool{}
+		extra := ""
+		var evalErr error
+		for _, a := range vals[0] {
+			for _, b := range vals[1] {
+				for _, cc := range vals[2] {
+					for _, d := range vals[3] {
+						h := [4]int64{a, b, cc, d}
+						acc, err := eval(h, 30)
+						if err != nil {
+							evalErr = err
+							continue
+						}
+						if _, isWant := want[h]; isWant {
+							seenWant[h] = acc
+							continue
+						}
+						okMix := a == 0x50 && b == 0x4B && (cc == 3 || cc == 5 || cc == 7) && (d == 4 || d == 6 || d == 8)
+						if acc && !okMix {
+							extra = fmt.Sprintf("%02x %02x %02x %02x", a, b, cc, d)
+						}
+					}
+				}
+			}
+		}
+		if evalErr != nil {
+			s.Und("zip signature table", c.Pos(f.Pos()), "the zip detector's verdict is not evaluable over its own constants: "+evalErr.Error())
+			return
+		}
+		keys := make([][4]int64, 0, len(want))
+		for k := range want {
+			keys = append(keys, k)
+		}
+		sort.Slice(keys, func(i, j int) bool { return keys[i][2] < keys[j][2] })
+		for _, k := range keys {
+			s.Check(seenWant[k], "zip accepts "+want[k], c.Pos(f.Pos()), "accepted", "an archive that starts with the "+want[k]+" is not recognised as application/zip: none of the zip-based formats, nor plain zip, is reported for it")
+		}
+		s.Check(extra == "", "zip accepts nothing but PK signatures", c.Pos(f.Pos()), "every accepted header is PK + {3,5,7} + {4,6,8}", "the zip detector accepts a header starting with "+extra)
+		short, err := eval([4]int64{0x50, 0x4B, 3, 4}, 3)
+		if err != nil {
+			s.Und("zip rejects a header shorter than the signature", c.Pos(f.Pos()), err.Error())
+		} else {
+			s.Check(!short, "zip rejects a header shorter than the signature", c.Pos(f.Pos()), "len 3 rejected", "a three-byte header is accepted as zip")
 		}
 	}}
 
